@@ -74,11 +74,11 @@ Proof.
 Qed.
 
 (* ---------- grammars with translations ---------- *)
-Record trule := { tl : nat; tr_rhs : list symbol;
+Record trule := { t_lhs : nat; tr_rhs : list symbol;
                   tr_anode : option (nat * Z);      (* abstract node: name, cost *)
                   tr_slots : list (option nat) }.   (* translation element -> rhs index | nil *)
 Definition tgrammar := list trule.
-Definition strip (r : trule) : rule := {| lhs := tl r; rhs := tr_rhs r |}.
+Definition strip (r : trule) : rule := {| lhs := t_lhs r; rhs := tr_rhs r |}.
 
 Definition slot_tree (ks : list tree) (s : option nat) : tree :=
   match s with None => Nil | Some k => nth k ks Nil end.
@@ -117,7 +117,7 @@ Inductive rhs_of (P : pred) : list symbol -> nat -> nat -> list tree -> Prop :=
                             rhs_of P (s :: ss) i j (t :: ts).
 
 Definition step (P : pred) : pred := fun x i j t =>
-  j <= length w /\ exists r ks, In r g /\ tl r = x /\ rhs_of P (tr_rhs r) i j ks /\ t = build r ks.
+  j <= length w /\ exists r ks, In r g /\ t_lhs r = x /\ rhs_of P (tr_rhs r) i j ks /\ t = build r ks.
 
 Fixpoint level (n : nat) : pred :=
   match n with 0 => fun _ _ _ _ => False | S n => step (level n) end.
@@ -227,20 +227,20 @@ Qed.
 
 Definition entry (tb : table) (k : key) : list tree :=
   let '(x, i, j) := k in
-  dedup (flat_map (fun r => if Nat.eqb (tl r) x then map (build r) (enum_rhs (es_of tb) (tr_rhs r) i j) else []) g).
+  dedup (flat_map (fun r => if Nat.eqb (t_lhs r) x then map (build r) (enum_rhs (es_of tb) (tr_rhs r) i j) else []) g).
 
 Lemma entry_spec tb x i j t : j <= length w ->
   (In t (entry tb (x, i, j)) <-> step (mem tb) x i j t).
 Proof.
   intros Hj. unfold entry. rewrite dedup_In, in_flat_map. split.
-  - intros (r & Hr & H). destruct (Nat.eqb_spec (tl r) x) as [Hx|]; [|contradiction].
+  - intros (r & Hr & H). destruct (Nat.eqb_spec (t_lhs r) x) as [Hx|]; [|contradiction].
     apply in_map_iff in H. destruct H as (ks & <- & Hks). apply enum_rhs_spec in Hks.
     split; auto. exists r, ks. auto.
   - intros (_ & r & ks & Hr & Hx & Hks & ->). exists r. split; auto.
     rewrite <- Hx, Nat.eqb_refl. apply in_map. now apply enum_rhs_spec.
 Qed.
 
-Definition nts : list nat := map tl g.
+Definition nts : list nat := map t_lhs g.
 Definition keys : list key :=
   flat_map (fun x => flat_map (fun i => map (fun j => (x, i, j)) (seq i (S (length w) - i)))
                               (seq 0 (S (length w)))) nts.
@@ -359,7 +359,7 @@ Fixpoint tcost (t : tree) : Z :=
 
 (* E : E '+' E # plus 1 (0 2) | 'a' # 0  on  a+a+a : two translations *)
 Example all_translations_ex :
-  let g := [ {| tl := 0; tr_rhs := [N 0; T 1; N 0]; tr_anode := Some (7, 1%Z); tr_slots := [Some 0; Some 2] |};
-             {| tl := 0; tr_rhs := [T 0]; tr_anode := None; tr_slots := [Some 0] |} ] in
+  let g := [ {| t_lhs := 0; tr_rhs := [N 0; T 1; N 0]; tr_anode := Some (7, 1%Z); tr_slots := [Some 0; Some 2] |};
+             {| t_lhs := 0; tr_rhs := [T 0]; tr_anode := None; tr_slots := [Some 0] |} ] in
   option_map (@length tree) (all_translations 20 g [97%Z; 43%Z] 99 0 [0;1;0;1;0]) = Some 2.
 Proof. vm_compute. reflexivity. Qed.
